@@ -30,7 +30,7 @@ TYPES = [
     ("pressure", "psi", ["Pa", "psi", "bar", "kPa", "atm"]),
     ("time", "min", ["s", "min", "h", "d"]),
 ]
-LIMITS = [(None, None), (1.0, None), (None, 10.0), (1.0, 10.0), (-5.0, 5.0), (0.0, None), (2.5, 2.5), (-40.0, 212.0)]
+LIMITS = [(None, None), (1.0, None), (None, 10.0), (1.0, 10.0), (-5.0, 5.0), (0.0, None), (2.5, 2.5), (-40.0, 212.0), (0.1, 213.4)]  # (the last pair cannot be written exactly in float32)
 
 
 def make_configs(db):
@@ -53,7 +53,48 @@ def make_configs(db):
                     dv = (lo + hi) / 2
                 db.AddCategory(name, qt, default_unit=du, min_value=mn, max_value=mx, is_min_exclusive=me, is_max_exclusive=xe, default_value=dv)
                 cfgs.append({"category": name, "qt": qt, "du": du, "units": units, "min": mn, "max": mx, "min_excl": me, "max_excl": xe})
+    # limits that are infinite are limits: an exclusive one excludes the infinity itself, and NaN satisfies none of them
+    for qt, du, units in TYPES[:1] + [t for t in TYPES if t[1] == "degC"][:1]:
+        for mn, mx in ((-INF, None), (None, INF), (-INF, INF), (-INF, 10.0), (1.0, INF)):
+            for me, xe in itertools.product([False, True], [False, True]):
+                if (mn is None and me) or (mx is None and xe):
+                    continue
+                name = "cfg%d" % i
+                i += 1
+                try:
+                    db.AddCategory(name, qt, default_unit=du, min_value=mn, max_value=mx, is_min_exclusive=me, is_max_exclusive=xe, default_value=2.0)
+                except Exception:
+                    continue
+                cfgs.append({"category": name, "qt": qt, "du": du, "units": units, "min": mn, "max": mx, "min_excl": me, "max_excl": xe})
     return cfgs
+
+
+def float32_arrays(ctx, db, cfg):
+    """an Array over a float32 (or float16) ndarray holds the amounts its elements are: the verdict is the one of the same
+    amounts in a list and of the Scalars holding them - at a limit that float32 cannot write exactly, too"""
+    import numpy as np
+    from barril.units import Array, FixedArray, Scalar
+
+    c, du = cfg["category"], cfg["du"]
+    for lim in (cfg["min"], cfg["max"]):
+        if lim is None or not math.isfinite(lim):
+            continue
+        for dt in (np.float32, np.float16):
+            near = dt(lim)
+            for v in (near, np.nextafter(near, dt(np.inf)), np.nextafter(near, dt(-np.inf)), dt(lim + 0.1), dt(lim - 0.1)):
+                amounts = [float(v), float(dt(2.0))]
+                case = {"config": {k: cfg[k] for k in ("qt", "du", "min", "max", "min_excl", "max_excl")}, "dtype": dt.__name__, "amounts": [repr(x) for x in amounts]}
+                ctx.ev()
+                ctx.nt(("float32 array", c, dt.__name__, repr(v)))
+                try:
+                    want = all(Scalar(c, x, du).IsValid() for x in amounts)
+                    got = {"ndarray": Array(c, np.array([v, dt(2.0)], dtype=dt), du).IsValid(), "list of the same amounts": Array(c, list(amounts), du).IsValid(),
+                           "FixedArray": FixedArray(2, c, np.array([v, dt(2.0)], dtype=dt), du).IsValid(), "ndarray reversed": Array(c, np.array([dt(2.0), v], dtype=dt), du).IsValid()}  # fmt: skip
+                except Exception as e:
+                    ctx.violation("float32-array-raised:%s" % type(e).__name__, dict(case, error=str(e)[:160]), replay=case)
+                    continue
+                if any(g != want for g in got.values()):
+                    ctx.violation("array-verdict-differs-from-elementwise-scalars:%s" % dt.__name__, dict(case, scalars=want, arrays=got), replay=case)
 
 
 def broken_limit(v, cfg):
@@ -300,6 +341,8 @@ def array_verdicts(ctx, db, aff, cfg, u, vals, svs):
 
 def sweep_configs(ctx, db, aff, cfgs, r):
     for ci, cfg in enumerate(cfgs):
+        if ci % ctx.nshards == ctx.shard:
+            float32_arrays(ctx, db, cfg)
         if ci % ctx.nshards != ctx.shard:
             continue
         for u in cfg["units"]:
